@@ -540,9 +540,9 @@ impl<Key, Filter, Child> HierarchicalFilters<Key, Filter, Child> {
         }
     }
 
-    /// Count of childs in container
+    /// Count of childs in container (removed childs leave empty slots, which are not counted)
     pub fn len(&self) -> usize {
-        self.children.len()
+        self.children.iter().flatten().count()
     }
 
     /// Clear container
